@@ -134,6 +134,7 @@ fn main() {
         "digest" => props::golden::digest_main(&args[2]),
         "c19-boundary" => props::c19::boundary_main(&args[2]),
         "c02-timeshift" => props::c02::timeshift_main(),
+        "forks" => props::golden::forks_main(&args[2]),
         "golden-record" => props::golden::record(),
         "rwlock-probe" => props::c11::rwlock_probe_child(),
         "bench" => {
